@@ -21,7 +21,7 @@ CONSTANTS
   WPIts = {0, 1, 2}
   QV <- TQV
   SL = 3
-  UV = {0, 1, 2, 3, 4, 6}
+  UV <- TUV
   ULens = {2, 3, 4}
   URanges <- TURanges
   LinConds <- TLin
